@@ -61,13 +61,16 @@ theorem doReallocOnNode_spec (w : Wl R) (answer : Option (R × R)) (flt : Option
     split <;> simp
   | some p =>
     obtain ⟨delta, newRes⟩ := p
-    have h : doReallocOnNode w (some (delta, newRes)) =
+    have h : doReallocOnNode w (some (delta, newRes)) = (do
+      setFlag false
       txn (step "pluginRealloc" w.node (addUsage w.node delta))
         (do step "storeUpdateWorkload" w.node (setWlRes w.id newRes)
+            setFlag true
             readStep "engineUpdate" w.node)
         (onThenFailure (do
             step "pluginRollbackRealloc" w.node (addUsage w.node (-delta))
-            step "storeUpdateWorkload" w.node (setWlRes w.id w.res))) := rfl
+            let ms ← getMS
+            if ms.flag then step "storeUpdateWorkload" w.node (setWlRes w.id w.res) else pure ()))) := rfl
     rw [h]
     wp_simp
     split
